@@ -25,7 +25,7 @@ def run(ctx):
     ctx.add_tlc(core.tlc_or_die(ctx.workdir, "GroupModel", model_cfg([5, 7] if quick else [5, 7, 11], 12), tag="grp", timeout=3000))
     # (M) design layer: the code's Jacobian formulas (Jacobi.tla) refine the textbook law on every curve over the small fields;
     # the pre-repair variant (H, r of the Z = 1 formula tested unreduced, F4) must be refuted
-    jcfg = ("INIT Init\nNEXT Next\nCHECK_DEADLOCK FALSE\nCONSTANTS Primes = {%s}\n MaxK = %d\n ReduceHR = %s\n"
+    jcfg = ("INIT Init\nNEXT Next\nCHECK_DEADLOCK FALSE\nCONSTANTS Primes = {%s}\n MaxK = %d\n MaxAB = 2\n ReduceHR = %s\n"
             "INVARIANT AddRefines\nINVARIANT DblRefines\nINVARIANT EqRefines\nINVARIANT ScaleNegRefine\nINVARIANT NafFacts\n"
             "INVARIANT MulNafRefines\nINVARIANT MulTableRefines\n")
     ctx.add_tlc(core.tlc_or_die(ctx.workdir, "JacobiModel", jcfg % ("5, 7" if quick else "5, 7, 11", 20 if quick else 40, "TRUE"),
